@@ -1374,6 +1374,10 @@ class Normaliser:
                 return simple(e.value)
             if isinstance(e, ast.Call) and not e.args and not e.keywords and isinstance(e.func, ast.Attribute) and e.func.attr == 'event':
                 return simple(e.func.value)
+            if isinstance(e, (ast.List, ast.Tuple, ast.Set)):          # a display builds a fresh object in either spelling (`a, b = [], []`)
+                return all(simple(x) for x in e.elts)
+            if isinstance(e, ast.Dict):
+                return all(k is not None and simple(k) and simple(v) for k, v in zip(e.keys, e.values))
             return False
         for rel, tree in self.trees.items():
             for fn in fn_nodes(tree):
